@@ -3,7 +3,7 @@
    byte-level readers (Seg/Reader.v tail_get / sealed_get) return on the byte
    image, and decoding those bytes gives the record back. *)
 From RW Require Import Base.Bytes Base.BytesFacts Base.Crc32c Fmt.Codec Fmt.CodecFacts Fmt.Frame Fmt.FrameFacts
-     Seg.Writer Seg.Recover Seg.Reader Seg.SegAbs Seg.WriterFacts Seg.ScanFacts Seg.ReaderFacts
+     Seg.Writer Seg.Recover Seg.Reader Seg.SegAbs Seg.WriterFacts Seg.ScanFacts Seg.RecoverFacts Seg.ReaderFacts
      Wal.Model Wal.Spec Link.Abs Link.AbsFacts1 Link.AbsFacts2 Gen.Constants.
 From Coq Require Import ZifyN ZifyNat ZifyBool.
 Open Scope N_scope.
@@ -174,4 +174,58 @@ Proof.
   intros C Hok Hlen Hl Hs Hb Hi Hge Hmin Hmax Hrd Hw. exists (enc l).
   rewrite (read_sim_sealed info info' bs f d idx l r C Hok Hlen Hl Hs Hb Hi Hge Hmin Hmax Hrd).
   destruct (enc_decode l Hw) as (_ & Hd & Hv & _). rewrite Hv. auto.
+Qed.
+
+(* ---------------- Filer.Open of a sealed segment ---------------- *)
+Lemma hdr_inv_cstate info bs : hdr_inv info (cstate info bs).
+Proof.
+  induction bs as [|b bs IH] using rev_ind; [apply hdr_inv_c0|].
+  rewrite cstate_snoc. apply hdr_inv_step. exact IH.
+Qed.
+
+Lemma image_starts_with_header info bs :
+  image info bs <> [] -> exists r, image info bs = file_header info ++ r.
+Proof.
+  intros Hn. destruct (hdr_inv_cstate info bs) as [r H]. exists r.
+  unfold image in *. unfold c_pend in H. destruct (c_img (cstate info bs)); [congruence|].
+  rewrite app_nil_r in H. exact H.
+Qed.
+
+(* L2's Open refuses a sealed segment whose file has no committed header
+   (cur_end = 0, Wal/Model.v open_segs: RErrCorrupt) and accepts it otherwise;
+   the byte-level Open validates the 32-byte header of the image *)
+Theorem open_sealed_sim info bs f r :
+  hdr_wf info -> cur_rep info bs f ->
+  open_sealed info (image info bs ++ r) = true <-> (cur_end f =? 0) = false \/ open_sealed info r = true.
+Proof.
+  intros (Hb & Hi & Hc) (_ & He & _). rewrite He.
+  destruct (image info bs) as [|x im] eqn:Eim.
+  - cbn [app]. change (len [] =? 0) with true. split; [auto|]. intros [H|H]; [discriminate|exact H].
+  - assert (Hne : image info bs <> []) by (rewrite Eim; discriminate).
+    destruct (image_starts_with_header info bs Hne) as [r' Hr']. rewrite <- Eim, Hr'.
+    replace (len (file_header info ++ r') =? 0) with false
+      by (symmetry; apply N.eqb_neq; rewrite len_app, len_file_header; lia).
+    split; [auto|]. intros _.
+    unfold open_sealed. rewrite <- app_assoc.
+    replace (len (file_header info ++ r' ++ r) <? 32) with false
+      by (symmetry; apply N.ltb_ge; rewrite len_app, len_file_header; lia).
+    change 32%nat with (length (file_header info)). rewrite firstn_app_exact.
+    rewrite <- (app_nil_r (file_header info)).
+    rewrite read_file_header_hdr by assumption. apply validate_file_header_refl.
+Qed.
+
+Corollary open_sealed_sim_zeros info bs f k :
+  hdr_wf info -> cur_rep info bs f ->
+  open_sealed info (image info bs ++ zeros k) = negb (cur_end f =? 0).
+Proof.
+  intros Hhw C. pose proof (open_sealed_sim info bs f (zeros k) Hhw C) as H.
+  assert (Hz : open_sealed info (zeros k) = false).
+  { destruct (Nat.lt_ge_cases k 32) as [Hk|Hk].
+    - apply open_sealed_short. rewrite len_zeros. lia.
+    - apply open_sealed_bad_magic. replace k with (8 + (k - 8))%nat by lia. rewrite zeros_app.
+      unfold magic. cbn. lia. }
+  rewrite Hz in H. destruct (cur_end f =? 0); cbn [negb].
+  - destruct (open_sealed info (image info bs ++ zeros k)); [|reflexivity].
+    destruct H as [H _]. destruct (H eq_refl); discriminate.
+  - apply H. left. reflexivity.
 Qed.
